@@ -393,6 +393,9 @@ def generate(rng, tier, i):
             r["n"] = [2 * v for v in r["domain"]]
     else:
         r = gm.random_3d(rng, "simplex", max_fracs=2)
+    if r["mesh"] == "cartesian" and rng.random() < 0.3:
+        # uniform tensor grid from a target cell size that does not divide the extent
+        r = gm.tensor_variant(rng, r)
     if rng.random() < 0.3:
         # domain whose lower corner is not the origin (integer or half-integer offset,
         # positive or negative)
@@ -402,6 +405,10 @@ def generate(rng, tier, i):
 
 def floor(tier):
     out = [{"recipe": r} for r in gm.floor_recipes()]
+    # tensor grids from a non-dividing target cell size
+    for k, r in enumerate(gm.floor_recipes(meshes=("cartesian",))):
+        if k % 2 == 0:
+            out.append({"recipe": gm.tensor_variant(np.random.default_rng(50 + k), r)})
     # offset domains (lower corner not in the origin)
     for k, r in enumerate(gm.floor_recipes()):
         if k % 3 == 1 or r["dim"] == 3 and len(r["fractures"]) == 1:
